@@ -62,10 +62,35 @@ type simNode struct {
 	removed bool         // Stage D: applied its own removal (raftexample shuts the node down)
 	pendRd  *raft.Ready  // profile deferAdv: a Ready that was handled (persisted, messages collected, entries applied) and not yet Advance()d
 	pendAck bool         // ... whose Advance will step the leader's self-acknowledgement
-	conf    pb.ConfState // Stage D: result of the last ApplyConfChange (goes into snapshots)
+	conf    pb.ConfState // Stage D: result of the last ApplyConfChange
+	hist    []confRec    // Stage D: the ConfState after every applied conf change, by index (a snapshot at index c carries the ConfState as of c)
 	// history for the safety predicates
 	hTerm, hCommit, hVoteTerm, hVote uint64
 	hPrefix                           []ent
+}
+
+type confRec struct {
+	idx uint64
+	cs  pb.ConfState
+}
+
+// the configuration as of index c
+func (nd *simNode) confAt(c uint64) pb.ConfState {
+	cs := nd.hist[0].cs
+	for _, r := range nd.hist {
+		if r.idx <= c {
+			cs = r.cs
+		}
+	}
+	return cs
+}
+
+func (nd *simNode) recordConf(idx uint64, cs pb.ConfState) {
+	k := 0
+	for k < len(nd.hist) && nd.hist[k].idx < idx {
+		k++
+	}
+	nd.hist = append(nd.hist[:k:k], confRec{idx, cs})
 }
 
 type profile struct {
@@ -81,6 +106,7 @@ type profile struct {
 	// ticks and steps interleave with its apply pages, as raftexample's select loop does); never used for lock-step profiles
 	applyPaged                                                        bool // Config.MaxCommittedSizePerReady = 1 byte: committed entries are handed to the application one per Ready (replication itself unpaged)
 	batch                                                             bool // Stage D only: every membership proposal is one MsgProp carrying 2-3 conf-change entries
+	mlock                                                             bool // Stage D: the schedule is replayed event by event on the config-aware handler RHC.handleC (lean/RaftDriver.lean)
 	grow                                                              bool // Stage D only: the cluster starts with node 1 as its only voter and grows by AddNode (the usual way a cluster is built)
 	deferAdv                                                          bool // lock-step profiles: with probability 1/3 a handled Ready is NOT advanced at once - the next input of that node (message, tick,
 	// proposal, campaign) is stepped first and Advance follows it, as etcd's node.run does between `readyc <- rd` and `<-advancec` (the application is
@@ -98,8 +124,8 @@ var profiles = []profile{
 	{name: "snap", wTick: 22, wDeliver: 50, wDrop: 2, wPropose: 14, wCampaign: 1, wCrash: 2, wCompact: 9, pDup: 0.05, lag: true},
 	{name: "paged", wTick: 22, wDeliver: 52, wDrop: 4, wPropose: 12, wCampaign: 4, wCrash: 3, wCompact: 2, pDup: 0.15, paged: true},
 	{name: "paged-partition", wTick: 25, wDeliver: 50, wDrop: 3, wPropose: 12, wCampaign: 3, wCrash: 2, wCompact: 2, pDup: 0.1, partition: 35, pHeal: 0.4, paged: true},
-	{name: "member", wTick: 22, wDeliver: 55, wDrop: 3, wPropose: 8, wCampaign: 3, wCrash: 2, wCompact: 2, pDup: 0.1, member: 6},
-	{name: "member-partition", wTick: 24, wDeliver: 50, wDrop: 4, wPropose: 8, wCampaign: 3, wCrash: 2, wCompact: 2, pDup: 0.15, partition: 40, pHeal: 0.4, member: 6},
+	{name: "member", wTick: 22, wDeliver: 55, wDrop: 3, wPropose: 8, wCampaign: 3, wCrash: 2, wCompact: 2, pDup: 0.1, member: 6, mlock: true},
+	{name: "member-partition", wTick: 24, wDeliver: 50, wDrop: 4, wPropose: 8, wCampaign: 3, wCrash: 2, wCompact: 2, pDup: 0.15, partition: 40, pHeal: 0.4, member: 6, mlock: true},
 	{name: "member-paged", wTick: 15, wDeliver: 70, wDrop: 1, wPropose: 12, wCampaign: 2, wCrash: 4, wCompact: 0, pDup: 0.05, applyPaged: true, member: 6, lazy: true, grow: true},
 	{name: "member-paged-partition", wTick: 18, wDeliver: 62, wDrop: 2, wPropose: 12, wCampaign: 3, wCrash: 4, wCompact: 0, pDup: 0.1, partition: 40, pHeal: 0.4, applyPaged: true, member: 6, lazy: true, grow: true},
 	{name: "member-batch-partition", wTick: 22, wDeliver: 50, wDrop: 4, wPropose: 8, wCampaign: 6, wCrash: 2, wCompact: 1, pDup: 0.1, partition: 25, pHeal: 0.35, member: 12, batch: true},
@@ -191,9 +217,16 @@ func newSim(n int, seed int64, prof profile, w *bufio.Writer) *sim {
 		if err := ms.ApplySnapshot(pb.Snapshot{Metadata: pb.SnapshotMetadata{Index: 1, Term: 0, ConfState: pb.ConfState{Voters: voters}}}); err != nil {
 			panic(err)
 		}
-		nd := &simNode{id: uint64(i + 1), ms: ms, applied: 1, hCommit: 1, conf: pb.ConfState{Voters: voters}}
+		nd := &simNode{id: uint64(i + 1), ms: ms, applied: 1, hCommit: 1, conf: pb.ConfState{Voters: voters}, hist: []confRec{{1, pb.ConfState{Voters: voters}}}}
 		nd.rn = s.newRawNode(nd)
 		s.nodes = append(s.nodes, nd)
+	}
+	if prof.mlock {
+		m := map[uint64]struct{}{}
+		for _, v := range voters {
+			m[v] = struct{}{}
+		}
+		fmt.Fprintf(w, "RC %s\n", idsCsv(m))
 	}
 	return s
 }
@@ -285,11 +318,14 @@ func fmtMsg(m pb.Message) string {
 		// the snapshot's state-machine image stands for a log prefix (ghost, carried in Data)
 		return fmt.Sprintf("snap,%d,%d,%d,%d,%s", m.Term, f, t, sat1(m.Snapshot.Metadata.Index), fmtEnts(parseEnts(string(m.Snapshot.Data))))
 	case pb.MsgProp:
-		p := uint64(math.MaxUint32)
-		if len(m.Entries) == 1 {
-			p = pidOf(m.Entries[0].Data)
+		if len(m.Entries) == 1 && m.Entries[0].Type == pb.EntryNormal {
+			return fmt.Sprintf("propFwd,%d,%d,%d,%d", m.Term, f, t, pidOf(m.Entries[0].Data))
 		}
-		return fmt.Sprintf("propFwd,%d,%d,%d,%d", m.Term, f, t, p)
+		var ps []string // Stage D: a forwarded proposal carrying conf changes (possibly several)
+		for _, e := range conv(m.Entries) {
+			ps = append(ps, strconv.FormatUint(e.pid, 10))
+		}
+		return fmt.Sprintf("propFwd,%d,%d,%d,%s", m.Term, f, t, strings.Join(ps, "+"))
 	}
 	return fmt.Sprintf("other:%s,%d,%d,%d", m.Type, m.Term, f, t)
 }
@@ -365,6 +401,19 @@ func idsCsv(m map[uint64]struct{}) string {
 func cfgSets(rn *raft.RawNode) (string, string, string) {
 	c := rn.Status().Config
 	return idsCsv(c.Voters[0]), idsCsv(c.Learners), idsCsv(c.Voters[1])
+}
+
+// the model input of a conf-change proposal: the proposed payloads, or `noop` when raft dropped the proposal (no leader known / the leader
+// has no Progress of its own) - the observed outcome is an input, as for Propose
+func (s *sim) propsInput(nd *simNode, ents []pb.Entry, err error) string {
+	if err != nil {
+		return "noop"
+	}
+	var ps []string
+	for _, e := range conv(ents) {
+		ps = append(ps, strconv.FormatUint(e.pid, 10))
+	}
+	return "props:" + strings.Join(ps, "+")
 }
 
 // gateProbe steps a proposal message with n conf-change entries and, when the node is the leader and the proposal is taken, reports which
@@ -476,7 +525,7 @@ func (s *sim) projection(nd *simNode) (string, raft.Status, []ent) {
 
 // drain persists and advances every pending Ready (as raftexample's serveChannels does); returns the messages
 // emitted and how many times `advance` stepped the leader's self-MsgAppResp.
-func (s *sim) drain(nd *simNode) (out []pb.Message, selfAcks int) {
+func (s *sim) drain(nd *simNode) (out []pb.Message, post []string) {
 	for cycles := 0; nd.rn.HasReady(); cycles++ {
 		if cycles > 20000 {
 			// a node that never stops producing Readys without any input (seen under a broken membership gate): report, do not spin
@@ -491,6 +540,7 @@ func (s *sim) drain(nd *simNode) (out []pb.Message, selfAcks int) {
 				panic(fmt.Sprintf("ApplySnapshot: %v", err))
 			}
 			nd.conf = rd.Snapshot.Metadata.ConfState
+			nd.hist = []confRec{{rd.Snapshot.Metadata.Index, nd.conf}}
 			nd.shadow = parseEnts(string(rd.Snapshot.Data))
 			if uint64(len(nd.shadow))+1 != rd.Snapshot.Metadata.Index {
 				panic("harness: snapshot ghost prefix has the wrong length")
@@ -517,6 +567,9 @@ func (s *sim) drain(nd *simNode) (out []pb.Message, selfAcks int) {
 		if k := len(rd.CommittedEntries); k > 0 && rd.CommittedEntries[k-1].Index > nd.applied {
 			nd.applied = rd.CommittedEntries[k-1].Index
 		}
+		if k := len(rd.CommittedEntries); k > 0 && s.prof.mlock {
+			post = append(post, fmt.Sprintf("apply:%d", rd.CommittedEntries[k-1].Index-1))
+		}
 		for _, e := range rd.CommittedEntries {
 			if e.Type == pb.EntryConfChange { // Stage D: apply before Advance, as raftexample's publishEntries does
 				var cc pb.ConfChange
@@ -528,6 +581,7 @@ func (s *sim) drain(nd *simNode) (out []pb.Message, selfAcks int) {
 					vb, lb, ob = cfgSets(nd.rn)
 				}
 				nd.conf = *nd.rn.ApplyConfChange(cc)
+				nd.recordConf(e.Index, nd.conf)
 				if s.prof.member > 0 {
 					va, la, oa := cfgSets(nd.rn)
 					fmt.Fprintf(s.w, "CF %d %d %d %d %s %s %s %s %s %s\n", nd.id, e.Index, int(cc.Type), cc.NodeID, vb, lb, ob, va, la, oa)
@@ -565,14 +619,14 @@ func (s *sim) drain(nd *simNode) (out []pb.Message, selfAcks int) {
 			break
 		}
 		if ack {
-			selfAcks++
+			post = append(post, "selfAck")
 		}
 		nd.rn.Advance(rd)
 		if s.prof.lazy && s.rng.Intn(2) == 0 {
 			break
 		}
 	}
-	return out, selfAcks
+	return out, post
 }
 
 func (s *sim) addToPool(ms []pb.Message) []string {
@@ -639,10 +693,8 @@ func (s *sim) event(kind string, i int, call func() []string) {
 				inputs = append(inputs, "selfAck")
 			}
 		}
-		out, acks := s.drain(nd)
-		for k := 0; k < acks; k++ {
-			inputs = append(inputs, "selfAck")
-		}
+		out, post := s.drain(nd)
+		inputs = append(inputs, post...)
 		proj, _, _ := s.projection(nd)
 		outs := s.addToPool(out)
 		o := "-"
@@ -650,8 +702,12 @@ func (s *sim) event(kind string, i int, call func() []string) {
 			o = strings.Join(outs, ";")
 		}
 		line = fmt.Sprintf("E %s %d %s %s %s", kind, i, strings.Join(inputs, ";"), proj, o)
+		if s.prof.mlock {
+			vs, ls, _ := cfgSets(nd.rn)
+			line += fmt.Sprintf(" %d %s %s", sat1(nd.rn.BasicStatus().Applied), vs, ls)
+		}
 	}()
-	if (s.prof.member > 0 || s.prof.prevote) && strings.HasPrefix(line, "E ") {
+	if (s.prof.member > 0 || s.prof.prevote) && !s.prof.mlock && strings.HasPrefix(line, "E ") {
 		line = "# " + line // Stage D schedules are outside the lock-step: the driver skips them
 	}
 	fmt.Fprintln(s.w, line)
@@ -934,7 +990,12 @@ func (s *sim) deliverAt(k int) {
 	txt := fmtMsg(pm.m)
 	s.stats["recv-"+strings.SplitN(txt, ",", 2)[0]]++
 	s.event("deliver", i, func() []string {
-		err := nd.rn.Step(pm.m)
+		m := pm.m
+		if m.Type == pb.MsgProp {
+			// stepLeader's conf-change gate rewrites refused entries IN PLACE; a duplicate of the message still in the pool must not see that
+			m.Entries = append([]pb.Entry(nil), m.Entries...)
+		}
+		err := nd.rn.Step(m)
 		if err != nil && !errors.Is(err, raft.ErrProposalDropped) && !(s.prof.member > 0 && errors.Is(err, raft.ErrStepPeerNotFound)) {
 			panic(fmt.Sprintf("harness: Step: %v", err))
 		}
@@ -960,6 +1021,10 @@ func (s *sim) doRestart(i int) {
 				nd.hCommit = hs.Commit
 			}
 		}
+		if s.prof.mlock {
+			snap, _ := nd.ms.Snapshot()
+			return []string{fmt.Sprintf("restart:%d", snap.Metadata.Index-1)}
+		}
 		return []string{"restart"}
 	})
 }
@@ -972,7 +1037,7 @@ func (s *sim) doCompact(i int) bool {
 	}
 	c := snap.Metadata.Index + 1 + uint64(s.rng.Int63n(int64(nd.applied-snap.Metadata.Index)))
 	s.event("compact", i, func() []string {
-		cs := nd.conf
+		cs := nd.confAt(c)
 		if _, err := nd.ms.CreateSnapshot(c, &cs, []byte(fmtEnts(nd.shadow[:c-1]))); err != nil {
 			panic(fmt.Sprintf("harness: CreateSnapshot(%d): %v", c, err))
 		}
@@ -1038,6 +1103,9 @@ func (s *sim) doConfChange(i int) {
 			if err != nil && !errors.Is(err, raft.ErrProposalDropped) {
 				panic(fmt.Sprintf("harness: Step(MsgProp with %d conf changes): %v", len(ents), err))
 			}
+			if s.prof.mlock {
+				return []string{s.propsInput(nd, ents, err)}
+			}
 			return []string{"confchange"}
 		})
 		return
@@ -1046,6 +1114,10 @@ func (s *sim) doConfChange(i int) {
 		err := s.gateProbe(nd, 1, func() error { return nd.rn.ProposeConfChange(cc) })
 		if err != nil && !errors.Is(err, raft.ErrProposalDropped) {
 			panic(fmt.Sprintf("harness: ProposeConfChange: %v", err))
+		}
+		if s.prof.mlock {
+			data, _ := cc.Marshal()
+			return []string{s.propsInput(nd, []pb.Entry{{Type: pb.EntryConfChange, Data: data}}, err)}
 		}
 		return []string{"confchange"}
 	})
